@@ -54,7 +54,12 @@ def _pop(rng, nd, size):
 
 
 def _rounds(rng, size, n=5):
-  return [sorted(rng.sample(range(size), rng.choice([1, 2, 2, 3]))) for _ in range(n)]
+  """Cohorts in NO particular order (ids not sorted: jax flattens dicts in sorted-key order while Python iterates in
+  insertion order, so a mis-association between a client and its losses / delta / state needs an unsorted cohort);
+  the last round is a strictly descending one with >= 2 clients."""
+  out = [rng.sample(range(size), rng.choice([1, 2, 2, 3])) for _ in range(n)]
+  out[-1] = sorted(set(out[-1]) | set(rng.sample(range(size), 2)), reverse=True)
+  return out
 
 
 _DT = [['float32', 'float32', 'float32'], ['int32', 'float16', 'float32'], ['float32', 'bool', 'bfloat16'], ['float16', 'float32', 'int32']]
@@ -67,7 +72,7 @@ def generate(tier, rng):
   for n, case in enumerate(_generate_base(tier, rng)):
     k = case['kind']
     if k != 'ignore':
-      case['ids'] = ['bytes', 'str', 'bytes0', 'str0'][n % 4]
+      case['ids'] = ['bytes', 'str', 'bytes0', 'str0', 'int0'][n % 5]
       case['ctuple'] = n % 2 == 1
       if n % 4 == 2:
         case['rounds'] = case['rounds'][:3] + [[]] + case['rounds'][4:]      # a round without any client
@@ -84,6 +89,8 @@ def generate(tier, rng):
     else:
       case['dtypes'] = _DT[n % 4] if case['hp']['base'] == 'sgd' or n % 2 else _DT[0]
       case['names_tuple'] = n % 2 == 1
+      case['nested'] = n % 3 == 1
+      case['rev'] = n % 4 >= 2
     yield case
   # agnostic with domain learning rate exactly 0 (weights must stay put) -- falsy but valid
   for W in [1, 2]:
@@ -93,8 +100,20 @@ def generate(tier, rng):
   for i in range({'quick': 12, 'thorough': 60, 'search': 60}[tier]):
     yield {'kind': 'direct', 'i': i, 'nd': 2 + i % 3, 'w': [rng.randrange(0, 9) for _ in range(4)],
            'loss': [rng.randrange(0, 17) / 4 for _ in range(4)], 'lr': rng.choice([0.0, 0.0625, 0.5, 2.0]),
-           'd': [rng.randrange(-8, 9) / 4 for _ in range(5)], 'bound': rng.choice([0.0, 0.25, 1.0, 3.0, 64.0]),
+           'd': [rng.randrange(-8, 9) / 4 for _ in range(5)],
+           'bound': rng.choice([0.0, 0.25, 1.0, 3.0, 64.0]) if i % 2 == 0 else [0.0, 1e-30, 1e-7, 5e-7, 1e-6, 1.0, 1e6, 1e30, 3.4028234e38][(i // 2) % 9],
+           'dscale': 1.0 if i % 2 == 0 else [1e-30, 1e-7, 1.0, 1e6, 1e18, 1e-7, 1.0, 1e6, 1e-30][(i // 2 + i // 18) % 9],
+           'ulp': [0, 0, 0, 0, -1, 1, 2][i % 7],      # 2: bound == norm exactly; -1 / 1: one ulp below / above it
            'K': 1 + i % 3, 'pop': _pop(rng, 2, 4), 'nojit': i % 3 == 2, 'np': i % 2 == 1, 'seed': rng.randrange(1000)}
+  if tier != 'search':
+    yield from _flag_cases(tier, rng)
+
+
+def _flag_cases(tier, rng):
+  from lib import c10c17_flags as flagrun
+  for flag, value in ([('jax_enable_x64', True)] if tier == 'quick' else flagrun.FLAGS_THOROUGH):
+    yield {'kind': 'flags', 'flag': flag, 'value': value, 'seed': rng.randrange(1000),
+           'names': ['agnostic', 'ignore', 'direct'] if tier == 'quick' else ['agnostic', 'apfl', 'hyp_cluster', 'mime_lite', 'ignore', 'direct']}
 
 
 def _generate_base(tier, rng):
@@ -137,7 +156,7 @@ def _generate_base(tier, rng):
       rounds = _rounds(rng, 5)
       if rep == 0:
         pop[4] = {'s': 9, 'cnt': [0, 0], 'g': 0}
-        rounds[2] = sorted(set(rounds[2]) | {4})    # a client whose delta is exactly zero
+        rounds[2] = [4] + [x for x in rounds[2] if x != 4]    # a client whose delta is exactly zero
       yield {'kind': 'mime_lite', 'hp': {'clip': clip, 'clr': 0.25, 'slr': 1.0, 'bs': BS, 'pbs': 4, 'bopt': 'sgd',
                                          'epochs': 1 + rep % 2}, 'pop': pop, 'rounds': rounds, 'seed': rng.randrange(1000)}
   names_grid = [[], [['lin', 'b']], [['emb', 't']], [['lin', 'w'], ['emb', 't']], [['lin', 'b'], ['lin', 'w'], ['emb', 't']]]
@@ -197,6 +216,9 @@ def _finite(tree):
 # ---- running ------------------------------------------------------------------------
 
 def run(case):
+  if case['kind'] == 'flags':
+    from lib import c10c17_flags as flagrun
+    return flagrun.run('c17', case['flag'], case['value'], case['names'], case['seed'])
   obs = {'agnostic': _run_agnostic, 'apfl': _run_apfl, 'hyp_cluster': _run_hyp, 'mime_lite': _run_mime,
          'ignore': _run_ignore, 'direct': _run_direct}[case['kind']](case)
   if obs.get('err') and 'rounds' in case and 'rounds' in obs and len(obs['rounds']) < len(case['rounds']):
@@ -234,19 +256,25 @@ def _run_direct(case):
       except ValueError:
         out['bad_alg'] = 'ValueError'
       # clipping a two-leaf tree
-      d = np.array(case['d'], np.float32)
+      d = (np.array(case['d'], np.float64) * case.get('dscale', 1.0)).astype(np.float32)
       tree = {'a': arr(d[:2]), 'b': {'c': arr(d[2:])}}
       tb = tiny.snapshot(tree)
-      cl = tree_util.tree_clip_by_global_norm(tree, case['bound'])
+      n32 = np.sqrt(np.sum(d * d, dtype=np.float32), dtype=np.float32)       # the norm as float32 arithmetic sees it
+      bound = case['bound']
+      if case.get('ulp') and np.isfinite(n32) and n32 > 0:
+        bound = float(n32 if case['ulp'] == 2 else np.nextafter(n32, np.float32(np.inf if case['ulp'] > 0 else 0)))
+      out['bound'] = bound
+      cl = tree_util.tree_clip_by_global_norm(tree, bound)
       flat = np.concatenate([np.asarray(cl['a'], np.float64), np.asarray(cl['b']['c'], np.float64)])
-      out['clip'] = {'d': _f(d), 'norm': float(np.sqrt(np.sum(d.astype(np.float64) ** 2))), 'res': _f(flat),
+      out['clip'] = {'d': _f(d), 'norm': float(np.sqrt(np.sum(d.astype(np.float64) ** 2))), 'n32': float(n32), 'res': _f(flat),
                      'input_same': tiny.same_snapshot(tb, tiny.snapshot(tree))}
       # maximization step on its own
       K = case['K']
       cps = [tiny.init_params(k) for k in range(K)]
       dss = [tiny.client_dataset(s) for s in case['pop']]
       ev = tiny.cached(('avg-loss-evaluator',), lambda: fj_models.AverageLossEvaluator(tiny.per_example_loss))
-      clients = [(tiny.cid(i), dd, tiny.client_rng(case['seed'], 0, i)) for i, dd in enumerate(dss)]
+      order = list(range(len(dss)))[::-1] if case['i'] % 2 else [(j * 3 + 1) % len(dss) for j in range(len(dss))]
+      clients = [(tiny.cid(i), dss[i], tiny.client_rng(case['seed'], 0, i)) for i in order]
       cb = tiny.snapshot(cps)
       ids = hyp_cluster.maximization_step(ev, tuple(cps) if case['np'] else cps, tuple(clients) if case['nojit'] else clients,
                                           fedjax.PaddedBatchHParams(batch_size=4))
@@ -468,7 +496,12 @@ def _ig_tree(vals, scale, dtypes=None, names=()):
     a = np.array([next(it) * scale for _ in range(k)], np.float32).reshape(shape)
     dt = dtypes[j] if dtypes and [m, n] in names else 'float32'
     tree.setdefault(m, {})[n] = jnp.asarray(a).astype({'bfloat16': jnp.bfloat16}.get(dt, dt))
+  if _IG_REV[0]:     # modules and names INSERTED in non-sorted order (jax flattens sorted, Python iterates as inserted)
+    tree = {m: {n: tree[m][n] for n in sorted(tree[m], reverse=True)} for m in sorted(tree, reverse=True)}
   return tree
+
+
+_IG_REV = [False]
 
 
 def _restrict(tree, names):
@@ -492,10 +525,15 @@ def _run_ignore(case):
   base = {'sgd': lambda: fedjax.optimizers.sgd(hp['lr']), 'mom': lambda: fedjax.optimizers.sgd(hp['lr'], momentum=0.5),
           'adam': lambda: fedjax.optimizers.adam(hp['lr'])}[hp['base']]()
   nt = [tuple(n) for n in names]
-  opt = fedjax.optimizers.ignore_grads_haiku(base, tuple(nt) if case.get('names_tuple') else nt)
+  if case.get('nested'):     # composition: the wrapper applied to the wrapper; ignored = union of both name lists
+    opt = fedjax.optimizers.ignore_grads_haiku(fedjax.optimizers.ignore_grads_haiku(base, nt[:len(nt) // 2]), nt[len(nt) // 2:][::-1])
+  else:
+    opt = fedjax.optimizers.ignore_grads_haiku(base, tuple(nt) if case.get('names_tuple') else nt)
   dts = case.get('dtypes')
   params = _ig_tree(case['vals'][0:5], 0.25, dts, names)
   out = {'steps': [], 'err': None}
+  _IG_REV[0] = bool(case.get('rev'))
+  params = _ig_tree(case['vals'][0:5], 0.25, dts, names)
   try:
     state = opt.init(params)
     rparams = _restrict(params, names)
@@ -529,6 +567,10 @@ def _run_ignore(case):
 
 def oracle(case, obs):
   k = case['kind']
+  if k == 'flags':
+    if obs['err']:
+      return [('flags.harness-failed', f'{case["flag"]}={case["value"]}: {obs["err"]}')]
+    return [(a, f'under {case["flag"]}={case["value"]}: {w}') for _, vs in obs['results'] for a, w in vs]
   if obs['err']:
     if obs.get('err_empty_cohort'):
       return [(k + '.empty-cohort-raises', f'{k}: apply() on an empty client selection raised {obs["err"]}')]
@@ -550,9 +592,13 @@ def _or_direct(case, obs):
   if not obs['none_same'] or obs['bad_alg'] != 'ValueError' or not eg['input_same']:
     out.append(('agnostic.update-domain-weights-contract', "'none' must return the weights, an unknown algorithm must raise ValueError, the input stays"))
   c = obs['clip']
-  res, d, n, b = np.array(c['res']), np.array(c['d']), c['norm'], case['bound']
-  if not np.all(np.isfinite(res)) or np.sqrt(np.sum(res ** 2)) > b * (1 + 1e-4) + 1e-7 or \
-      not _close(res, d * (b / n if n > b else 1.0)) or not c['input_same']:
+  res, d, n, n32, b = np.array(c['res']), np.array(c['d']), c['norm'], c['n32'], obs['bound']
+  # 1e-18: below ~1e-19 the squares underflow in float32 and the computed norm is 0 (documented as not covered)
+  bad = not np.all(np.isfinite(res)) or np.sqrt(np.sum(res ** 2)) > b * (1 + 1e-4) + 1e-18 or not c['input_same']
+  if math.isfinite(n32):      # reference with the norm float32 arithmetic computes (an overflowing norm clips everything to 0)
+    ref = d * (np.float64(np.float32(b) / np.float32(n32)) if n32 > np.float32(b) else 1.0)
+    bad = bad or not (np.all(np.abs(res - ref) <= 1e-4 * np.abs(ref) + 1e-37))
+  if bad:
     out.append(('tree_clip.not-clipped', f'tree_clip_by_global_norm({c["d"]}, {b}) = {c["res"]}'))
   m = obs['max']
   for a, ls in zip(m['assign'], m['losses']):
@@ -698,6 +744,8 @@ def _zl(xs):
 
 
 def encode(case, obs):
+  if case['kind'] == 'flags':
+    return None
   if obs['err']:
     return None
   k = case['kind']
@@ -706,8 +754,11 @@ def encode(case, obs):
     eg, c, m = obs['eg'], obs['clip'], obs['max']
     ins.append(f'(IEg {_ql(eg["w"])} {_ql(eg["e"])})')
     outs.append(f'(OVec {_ql(eg["w_new"])})')
-    if all(math.isfinite(v) for v in c['res']):
-      ins.append(f'(IClipD {_q(case["bound"])} {_ql(c["d"])} {_q(c["norm"])})')
+    if all(math.isfinite(v) for v in c['res']) and math.isfinite(c['n32']) and c['norm'] > 0 and \
+        abs(c['n32'] - c['norm']) <= 1e-5 * c['norm'] and abs(c['norm'] - obs['bound']) > 1e-5 * c['norm'] and \
+        min(abs(v) for v in c['d'] if v) > 1e-15:
+      # (the exact model is compared where float32 neither under- nor overflows and the boundary is not within rounding)
+      ins.append(f'(IClipD {_q(obs["bound"])} {_ql(c["d"])} {_q(c["norm"])})')
       outs.append(f'(OVec {_ql(c["res"])})')
     for a, ls, n in zip(m['assign'], m['losses'], m['n']):
       srt = sorted(set(ls))
@@ -776,11 +827,13 @@ def encode(case, obs):
 
 
 def nontrivial(case, obs):
+  if case['kind'] == 'flags':
+    return bool(obs['results'])
   if obs['err']:
     return False
   k = case['kind']
   if k == 'direct':
-    return obs['clip']['norm'] > case['bound'] or case['lr'] > 0
+    return obs['clip']['norm'] > obs['bound'] or case['lr'] > 0
   if k == 'agnostic':
     return any(0 in ro['cnt'] for ro in obs['rounds'])
   if k == 'apfl':
@@ -794,6 +847,8 @@ def nontrivial(case, obs):
 
 def describe(case, obs):
   d = {'kind': case['kind']}
+  if case['kind'] == 'flags':
+    return d
   if obs['err']:
     return d
   if case['kind'] == 'agnostic':
